@@ -354,6 +354,15 @@ for _f, _e in (("cfg_numopts", "h_dfcc_numopts"), ("cfg_getnopt", "h_dfcc_getnop
       label="bounded(quantifier-free twin of the loop-contract unit: option arrays of at most 3 entries; SAT back end, yields counterexamples)",
       props=["C16", "C01", "C02"], cost=5)
 
+U("dfcc_modular_cfg_num", harness="harness/dfcc.c", entry="h_dfcc_num", func="cfg_num", style="S1", defs={"quick": []}, cbmc=NOOOM, backend="z3",
+  dfcc={"enforce": ["cfg_num"], "replace": ["cfg_numopts"]}, expect_canary=False, no_slice=False, require_obligations=[r"postcondition", r"precondition"],
+  label="proof (contract of cfg_num enforced with the call to cfg_numopts replaced by contract::cfg_numopts: caller checked against the callee's contract, not its body; option arrays up to 1024; z3)",
+  props=["C16", "C01", "C02"], cost=20)
+
+U("dfcc_modular_cfg_num_twin", harness="harness/dfcc.c", entry="h_dfcc_num", func="cfg_num", style="S1", defs={"quick": ["-DCFGV_TWIN"]}, cbmc=NOOOM,
+  dfcc={"enforce": ["cfg_num"], "replace": ["cfg_numopts"]}, expect_canary=False, no_slice=False, require_obligations=[r"postcondition", r"precondition"],
+  label="bounded(quantifier-free twin of dfcc_modular_cfg_num: option arrays of at most 3 entries; SAT back end, yields counterexamples)", props=["C16", "C01", "C02"], cost=5)
+
 # ------------------------------------------------------------------ per-property text for MANIFEST / evidence
 HOOK_COMMITS = ["b37b503", "1902c5d"]
 NOT_APPLICABLE = {}
